@@ -85,7 +85,8 @@ type RunState struct {
 	Stmts  int64
 	Iters  int64
 	Budget int64
-	TooBig bool // a probe saw a string above maxProbeString; the run was ended
+	TooBig bool  // a probe saw a string above maxProbeString; the run was ended
+	Ticks  int64 // tick() calls so far
 
 	Polls       int
 	FireAtPoll  int   // >0: ExitSignal answers true from the k-th poll on
@@ -267,6 +268,16 @@ func v1Boom(ctx *plrt.Task, e *ast.CallExpr) *errchain.PlError {
 
 func v1Void(ctx *plrt.Task, e *ast.CallExpr) *errchain.PlError { return nil }
 
+func v1Tick(ctx *plrt.Task, e *ast.CallExpr) *errchain.PlError {
+	n := int64(0)
+	if rs := stateV1(ctx); rs != nil {
+		rs.Ticks++
+		n = rs.Ticks
+	}
+	ctx.Regs.ReturnAppend(n, ast.Int)
+	return nil
+}
+
 // V1Funcs returns the shipped builtins plus the probes.
 func V1Funcs() (map[string]plrt.FuncCall, map[string]plrt.FuncCheck) {
 	call := map[string]plrt.FuncCall{}
@@ -277,7 +288,7 @@ func V1Funcs() (map[string]plrt.FuncCall, map[string]plrt.FuncCheck) {
 	for k, v := range funcs.FuncsCheckMap {
 		check[k] = v
 	}
-	for k, v := range map[string]plrt.FuncCall{"p": v1P, "t": v1T, "boom": v1Boom, "void": v1Void} {
+	for k, v := range map[string]plrt.FuncCall{"p": v1P, "t": v1T, "boom": v1Boom, "void": v1Void, "tick": v1Tick} {
 		call[k] = v
 		check[k] = okCheck
 	}
@@ -419,7 +430,16 @@ func V2Funcs() map[string]*runtimev2.Fn {
 		"boom": {Call: func(ctx *runtimev2.Task, e *ast.CallExpr) *errchain.PlError {
 			return runtimev2.NewRunError(ctx, "boom", e.NamePos)
 		}, CallCheck: v2ok},
-		"void":  {Call: func(ctx *runtimev2.Task, e *ast.CallExpr) *errchain.PlError { return nil }, CallCheck: v2ok},
+		"void": {Call: func(ctx *runtimev2.Task, e *ast.CallExpr) *errchain.PlError { return nil }, CallCheck: v2ok},
+		"tick": {Call: func(ctx *runtimev2.Task, e *ast.CallExpr) *errchain.PlError {
+			n := int64(0)
+			if rs := stateV2(ctx); rs != nil {
+				rs.Ticks++
+				n = rs.Ticks
+			}
+			ctx.Regs.ReturnAppend(runtimev2.V{V: n, T: ast.Int})
+			return nil
+		}, CallCheck: v2ok},
 		"sink":  declaredSink(sinkParams),
 		"vsink": declaredSink(vsinkParams),
 		"multi": {Call: func(ctx *runtimev2.Task, e *ast.CallExpr) *errchain.PlError {
